@@ -58,6 +58,9 @@ def main():
         pkg_before = snapshot_tree(os.path.join(root, "main")) if inside else None
         rc, o, e, ev = cu.run_yardl(yardl, cfg["cmd"], cwd, home, args, trace)
         after = {t: snapshot_tree(d) for t, d in outs.items()}
+        if cfg["loc"] in ("reserved_namespace", "import_reserved_namespace"):       # the renamed package appears under its new name in the trace
+            ren = {"Main": "Yardl"} if cfg["loc"] == "reserved_namespace" else {"Imp2": "Yardl"}
+            config_line = dict(config_line, closure=[ren.get(n, n) for n in config_line["closure"]])
         lines += cu.trace_lines(config_line, ev, rc)
         obs = {"rc": rc, "stderr": e[-500:], "changed": sorted(t for t in outs if before[t] != after[t]),
                "exists_after": sorted(t for t in outs if after[t])}
